@@ -31,6 +31,7 @@ def run_job(args):
     res = {'name': name, 'props': {}}
     try:
         shutil.rmtree(d, ignore_errors=True)
+        sh('git -C /repo worktree prune')
         os.makedirs(d)
         r = sh(f'git -C /repo worktree add -q --detach {d}/repo HEAD')
         if r.returncode != 0:
